@@ -205,7 +205,7 @@ Verdict run_tmr(const Plan &p, Cov &cov, bool verbose, bool preemptive) {
 }
 
 const std::vector<uint32_t> FREQS = {100, 1000, 10000, 1000000, 300, 1500, 44100, 250, 8000};
-const std::vector<int64_t> TVALS = {0, 1, 1, 2, 2, 3, 3, 5, 7, 4, 6, 10, 1000, 0x80000000ll, 0xffffffffll};
+const std::vector<int64_t> TVALS = {0, 1, 1, 2, 2, 3, 3, 5, 7, 4, 6, 10, 1000, 0x80000000ll, 0xffffffffll, 65536, 65537, 70000, 131075};
 
 Plan gen_tmr(Rng &r, bool thorough, bool preemptive) {
     Plan p; p.cfg["freq"] = r.pick(FREQS); p.cfg["tmrnum"] = r.chance(1, 3) ? r.range(1, 3) : r.range(1, 16);
@@ -215,10 +215,11 @@ Plan gen_tmr(Rng &r, bool thorough, bool preemptive) {
         Op o; int k = r.weighted(wts);
         if (k == 0) { int64_t st = r.pick(TVALS), cy = r.chance(1, 2) ? 0 : r.pick(TVALS); if (r.chance(1, 10)) st = 0;
             int script = r.chance(1, 4) ? (int)r.range(1, 3) : 0; int64_t sarg = script == 3 ? (int64_t)(r.below(6) | r.below(4) << 8) : (int64_t)r.below(8);
-            if (preemptive && (st > 1000 || cy > 1000)) { st &= 7; cy &= 7; }
+            if (preemptive && cy > 1000) cy &= 7;
+            if (preemptive && st > 1000 && !(st < 200000 && r.chance(1, 2))) st &= 7;   // long start delays (beyond 16 bit) stay possible, huge ones only in the strict regime
             o = Op("create", {st, cy, script, sarg}); handles++; }
         else if (k == 1) { o = Op("delete", {r.chance(1, 8) ? -(int64_t)r.range(1, 8) : (int64_t)r.below((uint32_t)std::max(1, handles + 1))}); }
-        else if (k == 2) { int64_t n = r.chance(1, 12) ? r.pick(TVALS) : r.range(1, 4); if (preemptive && n > 1000) n = 3; o = Op("tick", {n}); }
+        else if (k == 2) { int64_t n = r.chance(1, 12) ? r.pick(TVALS) : r.range(1, 4); if (preemptive && n > 1000) n = r.chance(1, 3) ? n % 140000 : 3; o = Op("tick", {n}); }
         else if (k == 3) { o = Op("process"); }
         else { o = Op("conv", {(int64_t)(r.chance(1, 2) ? r.below(65536) : r.pick({0, 1, 3, 10, 100, 1000, 65535, 30, 300})), (int64_t)r.below(2)}); }
         if (preemptive && r.chance(1, 3) && o.k != "tick") { int n = (int)r.range(1, 3); for (int j = 0; j < n; j++) o.b.push_back((uint8_t)r.below(12)); }
